@@ -10,6 +10,7 @@ import (
 	"github.com/PowerDNS/lightningstream/config"
 	"github.com/PowerDNS/lightningstream/snapshot"
 	"github.com/PowerDNS/lightningstream/utils"
+	"github.com/PowerDNS/lightningstream/utils/verifhook"
 	"github.com/PowerDNS/simpleblob"
 	"github.com/samber/lo"
 	"github.com/sirupsen/logrus"
@@ -71,6 +72,7 @@ func (w *Worker) Run(ctx context.Context) error {
 		<-ctx.Done()
 		return context.Canceled
 	}
+	verifhook.Start(ctx, "cleaner", "")
 	for {
 		err := w.RunOnce(ctx, time.Now())
 		if err != nil {
